@@ -2,7 +2,7 @@
 check is not (yet) built is listed here so that MANIFEST.json never claims more than bin/check can decide."""
 import json, os
 _V = os.path.dirname(os.path.dirname(os.path.abspath(__file__)))
-_built = {os.path.basename(p)[:-3].upper() for p in __import__("glob").glob(os.path.join(_V, "lib", "recipes", "c*.py"))}
+_built = {l.strip() for l in open(os.path.join(_V, "lib", "claimed.txt")) if l.strip() and not l.startswith("#")}
 _all = [json.loads(l)["id"] for l in open(os.path.join(_V, "properties.jsonl"))]
 NOT_APPLICABLE = [dict(property_id=i, reason="check not built yet in this round (the technique applies; see DESIGN.md section 4/%s for the plan)" % i)
                   for i in _all if i not in _built]
